@@ -632,20 +632,16 @@ func (t *fnTr) callTerm(c *ast.CallExpr, d *fnDone, recv ast.Expr) fnVal {
 			if e == nil {
 				t.fail(c, "missing receiver")
 			}
+			if a.ty.k == fkNilBytes {
+				vals = append(vals, t.nilableArg(e))
+				continue
+			}
 			v := t.coerce(e, t.expr(e), a.ty)
 			t.escape(v)
 			vals = append(vals, v)
 			continue
 		}
-		key := t.mapPath(c, d, recv, a.path)
-		vr := t.vars[key]
-		if vr == nil {
-			t.fail(c, "%s uses %s, which is not in the declared interface of this function", d.spec.Coq, key)
-		}
-		if vr.ty.k != a.ty.k {
-			t.fail(c, "%s is used at another type by %s", key, d.spec.Coq)
-		}
-		vals = append(vals, t.varVal(c, vr, key))
+		vals = append(vals, t.pathArg(c, d, recv, a))
 	}
 	for _, p := range d.state {
 		key := t.mapPath(c, d, recv, p)
